@@ -40,24 +40,23 @@ def isTail (b : UInt8) : Bool := 0x80 ≤ b.toNat && b.toNat ≤ 0xBF
 def utf8Valid : Bytes → Bool
   | [] => true
   | b0 :: rest =>
-    let n := b0.toNat
-    if n < 0x80 then utf8Valid rest
-    else if 0xC2 ≤ n && n ≤ 0xDF then
+    if b0.toNat < 0x80 then utf8Valid rest
+    else if 0xC2 ≤ b0.toNat && b0.toNat ≤ 0xDF then
       match rest with
       | b1 :: r => isTail b1 && utf8Valid r
       | _ => false
-    else if 0xE0 ≤ n && n ≤ 0xEF then
+    else if 0xE0 ≤ b0.toNat && b0.toNat ≤ 0xEF then
       match rest with
       | b1 :: b2 :: r =>
-        (if n == 0xE0 then 0xA0 ≤ b1.toNat && b1.toNat ≤ 0xBF
-         else if n == 0xED then 0x80 ≤ b1.toNat && b1.toNat ≤ 0x9F
+        (if b0.toNat == 0xE0 then 0xA0 ≤ b1.toNat && b1.toNat ≤ 0xBF
+         else if b0.toNat == 0xED then 0x80 ≤ b1.toNat && b1.toNat ≤ 0x9F
          else isTail b1) && isTail b2 && utf8Valid r
       | _ => false
-    else if 0xF0 ≤ n && n ≤ 0xF4 then
+    else if 0xF0 ≤ b0.toNat && b0.toNat ≤ 0xF4 then
       match rest with
       | b1 :: b2 :: b3 :: r =>
-        (if n == 0xF0 then 0x90 ≤ b1.toNat && b1.toNat ≤ 0xBF
-         else if n == 0xF4 then 0x80 ≤ b1.toNat && b1.toNat ≤ 0x8F
+        (if b0.toNat == 0xF0 then 0x90 ≤ b1.toNat && b1.toNat ≤ 0xBF
+         else if b0.toNat == 0xF4 then 0x80 ≤ b1.toNat && b1.toNat ≤ 0x8F
          else isTail b1) && isTail b2 && isTail b3 && utf8Valid r
       | _ => false
     else false
@@ -73,6 +72,12 @@ inductive Tok (N : Type) where
   | nul
   | eof
   | err
+
+/-- `tock_eof` / `tock_err`: nothing is read after them -/
+def Tok.isStop {N} : Tok N → Bool
+  | .eof => true
+  | .err => true
+  | _ => false
 
 /-- value of a hex digit as `sscanf("%x")` reads it -/
 def hexVal (c : UInt8) : Nat :=
@@ -148,66 +153,70 @@ def scanMain : Bool → Bool → Bool → Bytes → Bytes × Bytes
       | [] => ([101], [])
       | s :: rest1 =>
         if s == 43 || s == 45 then consTo 101 (consTo s (scanMain fm fd true rest1))
-        else consTo 101 (scanMain fm fd true (s :: rest1))
+        -- `continue` without advancing: the loop re-examines `s` with found_sci set, where only a
+        -- digit can still be consumed (the '.' and 'e' branches are disabled)
+        else if isDigit s then consTo 101 (consTo s (scanMain true fd true rest1))
+        else ([101], s :: rest1)
     else ([], c :: rest)
-termination_by _ _ _ inp => inp.length
 
 /-- leading zeros: only the first one is stored -/
 def scanZeros : Bool → Bytes → Bool × Bytes × Bytes
   | fm, [] => (fm, [], [])
   | fm, c :: rest =>
     if c == 48 then
-      let (fm', x, r) := scanZeros true rest
-      (fm', (if fm then x else 48 :: x), r)
+      ((scanZeros true rest).1, (if fm then (scanZeros true rest).2.1 else 48 :: (scanZeros true rest).2.1), (scanZeros true rest).2.2)
     else (fm, [], c :: rest)
+
+/-- optional sign of `_M_extract_float` -/
+def scanSign (inp : Bytes) : Bytes × Bytes :=
+  match inp with
+  | c :: rest => if c == 43 || c == 45 then ([c], rest) else ([], inp)
+  | [] => ([], [])
 
 /-- `_M_extract_float`: (`__xtrc`, unconsumed input) -/
 def scanFloat (inp : Bytes) : Bytes × Bytes :=
-  let (sign, inp1) : Bytes × Bytes :=
-    match inp with
-    | c :: rest => if c == 43 || c == 45 then ([c], rest) else ([], inp)
-    | [] => ([], [])
-  let (fm, z, inp2) := scanZeros false inp1
-  let (x, r) := scanMain fm false false inp2
-  (sign ++ z ++ x, r)
+  let s := scanSign inp
+  let z := scanZeros false s.2
+  let m := scanMain z.1 false false z.2.2
+  (s.1 ++ z.2.1 ++ m.1, m.2)
 
 def digitsVal (ds : Bytes) : Nat := ds.foldl (fun a d => a * 10 + (d.toNat - 48)) 0
+
+/-- optional sign of `strtod` -/
+def stripSign (x : Bytes) : Bool × Bytes :=
+  match x with
+  | 45 :: r => (true, r)
+  | 43 :: r => (false, r)
+  | r => (false, r)
+
+/-- optional `.digits` of `strtod`: (fraction digits, rest) -/
+def splitFrac (x : Bytes) : Bytes × Bytes :=
+  match x with
+  | 46 :: r => (r.takeWhile isDigit, r.dropWhile isDigit)
+  | r => ([], r)
 
 /-- `strtod` on a string over `[+-0-9.e]`: `none` when it would not consume the whole
 string (libstdc++ then sets failbit), otherwise the exact decimal. -/
 def parseDec (x : Bytes) : Option Dec :=
-  let (neg, x1) : Bool × Bytes :=
-    match x with
-    | 45 :: r => (true, r)
-    | 43 :: r => (false, r)
-    | r => (false, r)
-  let ip := x1.takeWhile isDigit
-  let x2 := x1.dropWhile isDigit
-  let (fp, x3) : Bytes × Bytes :=
-    match x2 with
-    | 46 :: r => (r.takeWhile isDigit, r.dropWhile isDigit)
-    | r => ([], r)
-  if ip.length + fp.length == 0 then none
+  let s := stripSign x
+  let ip := s.2.takeWhile isDigit
+  let f := splitFrac (s.2.dropWhile isDigit)
+  if ip.length + f.1.length == 0 then none
   else
-    match x3 with
-    | [] => some ⟨neg, digitsVal (ip ++ fp), - (fp.length : Int)⟩
+    match f.2 with
+    | [] => some ⟨s.1, digitsVal (ip ++ f.1), - (f.1.length : Int)⟩
     | 101 :: r =>
-      let (eneg, r1) : Bool × Bytes :=
-        match r with
-        | 45 :: t => (true, t)
-        | 43 :: t => (false, t)
-        | t => (false, t)
-      if r1.isEmpty || !r1.all isDigit then none
+      let es := stripSign r
+      if es.2.isEmpty || !es.2.all isDigit then none
       else
-        let e : Int := digitsVal r1
-        some ⟨neg, digitsVal (ip ++ fp), (if eneg then -e else e) - (fp.length : Int)⟩
+        some ⟨s.1, digitsVal (ip ++ f.1),
+          (if es.1 then - (digitsVal es.2 : Int) else (digitsVal es.2 : Int)) - (f.1.length : Int)⟩
     | _ => none
 
 /-- `parse_number`: `is_ >> real; return !is_.fail()` -/
 def parseNumber {N} (ops : NumOps N) (inp : Bytes) : Option (N × Bytes) :=
-  let (x, r) := scanFloat inp
-  match (parseDec x).bind ops.ofDec with
-  | some v => some (v, r)
+  match (parseDec (scanFloat inp).1).bind ops.ofDec with
+  | some v => some (v, (scanFloat inp).2)
   | none => none
 
 def kwTok {N} : Nat → Tok N
@@ -251,10 +260,8 @@ consumes at least one byte, `Lemmas.next_length`). -/
 def tokensAux {N} (ops : NumOps N) : Nat → Bytes → List (Tok N × Bytes)
   | 0, _ => []
   | fuel + 1, inp =>
-    match next ops inp with
-    | (.eof, r) => [(.eof, r)]
-    | (.err, r) => [(.err, r)]
-    | (t, r) => (t, r) :: tokensAux ops fuel r
+    if (next ops inp).1.isStop then [next ops inp]
+    else next ops inp :: tokensAux ops fuel (next ops inp).2
 
 def tokens {N} (ops : NumOps N) (inp : Bytes) : List (Tok N × Bytes) := tokensAux ops (inp.length + 1) inp
 
